@@ -25,7 +25,7 @@ func init() {
 		Explanation: "Statically decidable part of 'the HTTP gateway maps outcomes faithfully': " +
 			"(R1) limit agreement: wherever a LimitReader bound N is followed by a length test against M, N > M (otherwise oversize bodies are truncated instead of rejected); announced grpc-web sizes are compared with the limit before reading/writing; " +
 			"(R2) the protocol table: every content type maps to a protocol whose response content type is that key, JSON types use the JSON codecs, -text types the base64 reader/writer, and the fallback '*' exists; " +
-			"(R3) the grpc-web frame header written and read agree: 5 bytes, flag byte first, big-endian uint32 length at [1:5]; messages use flag 0, trailers flag 0x80; " +
+			"(R3) every buffer handed to the grpc-web write function is a frame: byte 0 is the flag, [1:5] the big-endian uint32 of a value proved equal to len(buffer)-5, however the buffer is put together; the reader takes a 5-byte header and the big-endian uint32 at [1:5]; messages use flag 0, trailers flag 0x80; " +
 			"(R4) every non-constant string written to the trailer block passes through the CR/LF replacer (whose table maps both CR and LF), and the Twirp error body is produced by the JSON marshaller; " +
 			"(R5) the effective error-code -> HTTP status function (map plus the 500 fallback) equals Twirp's ServerHTTPStatusFromErrorCode for every Twirp code (read from the Twirp source in the module cache when present); 200 is written only when there is no error; a failed RPC never reports grpc-status 0; " +
 			"plus the percent-decoding and reflect panic-freedom rules of C13.",
@@ -242,70 +242,180 @@ func c14r2(c *an.Ctx) {
 	c.Check(okFallback, "(wrapper).ServeHTTP | unknown content types use protocols[\"*\"]", c.P.Pos(sh.Pos()), "", "no fallback lookup")
 }
 
+// gwFrame describes one emission of a grpc-web frame: a buffer handed to the protocol's write function.
+type gwFrame struct {
+	fn      *ssa.Function
+	call    *ssa.Call
+	w       ssa.Value // the written buffer
+	flag    ssa.Value // what byte 0 is set to (nil if not found)
+	length  ssa.Value // the value encoded at [1:5], conversions stripped (nil if not found)
+	lenEq   bool      // length == len(w) - 5 on every path
+	payload ssa.Value // what follows the header when it is a single value (append/copy of it), or nil
+}
+
+// gwFrames finds every buffer written through grpcWebProtocol.write in drpchttp and reads off how its 5-byte header
+// is filled: by stores to element 0 and a big-endian PutUint32 at [1:5] of the same backing array, wherever and in
+// whatever order the frame is put together (a [5]byte that the payload is appended to, one exact-size allocation the
+// payload is copied into, a buffer that reserves the header and back-patches it).
+func gwFrames(c *an.Ctx) []gwFrame {
+	a := A(c)
+	writeF := a.field("drpchttp", "grpcWebProtocol", "write")
+	var out []gwFrame
+	for _, fn := range must(c.P.SourceFuncs("drpchttp")) {
+		an.Instrs(fn, func(in ssa.Instruction) {
+			call, ok := in.(*ssa.Call)
+			if !ok || call.Common().IsInvoke() || !isLoadOfField(call.Common().Value, writeF) || len(call.Common().Args) != 2 {
+				return
+			}
+			fr := gwFrame{fn: fn, call: call, w: call.Common().Args[1]}
+			// values that denote the start of the written buffer's backing array
+			bases := map[ssa.Value]bool{}
+			var addBase func(v ssa.Value, depth int)
+			addBase = func(v ssa.Value, depth int) {
+				if v == nil || depth > 6 || bases[v] {
+					return
+				}
+				bases[v] = true
+				switch x := v.(type) {
+				case *ssa.UnOp:
+					// other loads of the same variable with nothing written in between
+					if x.Op == token.MUL {
+						an.Instrs(fn, func(i2 ssa.Instruction) {
+							if u2, isU := i2.(*ssa.UnOp); isU && u2.Op == token.MUL && u2.X == x.X && u2 != x && an.SameLoad(u2, x) {
+								bases[u2] = true
+							}
+						})
+					}
+				case *ssa.Call:
+					if b, isB := x.Common().Value.(*ssa.Builtin); isB && b.Name() == "append" {
+						// the result starts with its first operand (same array or a copy of it)
+						addBase(x.Common().Args[0], depth+1)
+						if len(x.Common().Args) == 2 {
+							fr.payload = x.Common().Args[1]
+						}
+					}
+				case *ssa.Slice:
+					if x.Low == nil {
+						addBase(x.X, depth+1)
+						// the array may have been initialised from a composite literal copied into it
+						if al, isAl := x.X.(*ssa.Alloc); isAl {
+							for _, r := range *al.Referrers() {
+								if st, isSt := r.(*ssa.Store); isSt && st.Addr == ssa.Value(al) {
+									if ld, isLd := st.Val.(*ssa.UnOp); isLd {
+										bases[ld.X] = true
+									}
+								}
+							}
+						}
+					}
+				}
+			}
+			addBase(fr.w, 0)
+			an.Instrs(fn, func(i2 ssa.Instruction) {
+				switch x := i2.(type) {
+				case *ssa.Store:
+					if ia, isIA := x.Addr.(*ssa.IndexAddr); isIA && bases[ia.X] {
+						if k, isC := an.ConstInt(ia.Index); isC && k == 0 {
+							fr.flag = x.Val
+						}
+					}
+				case *ssa.Call:
+					obj := an.CalleeObj(x.Common())
+					if obj != nil && obj.Name() == "PutUint32" && strings.Contains(obj.FullName(), "bigEndian") {
+						if sl, isSl := x.Common().Args[1].(*ssa.Slice); isSl && bases[sl.X] {
+							lo, _ := an.ConstInt(sl.Low)
+							hi, _ := an.ConstInt(sl.High)
+							if lo == 1 && hi == 5 {
+								v := x.Common().Args[2]
+								for {
+									if cv, isCv := v.(*ssa.Convert); isCv {
+										v = cv.X
+										continue
+									}
+									break
+								}
+								fr.length = v
+							}
+						}
+					}
+					if b, isB := x.Common().Value.(*ssa.Builtin); isB && b.Name() == "copy" {
+						if sl, isSl := x.Common().Args[0].(*ssa.Slice); isSl && bases[sl.X] && sl.High == nil {
+							if lo, isC := an.ConstInt(sl.Low); isC && lo == 5 {
+								fr.payload = x.Common().Args[1]
+							}
+						}
+					}
+				}
+			})
+			if fr.length != nil {
+				le, ge := an.ProveRel(call, fr.length, false, fr.w, true, -5, 64)
+				fr.lenEq = le && ge
+			}
+			out = append(out, fr)
+		})
+	}
+	return out
+}
+
 func c14r3(c *an.Ctx) {
 	fw := c.Fn("drpchttp", "(grpcWebProtocol).framedWrite")
 	gr := c.Fn("drpchttp", "grpcRead")
-	// writer: [5]byte, tmp[0] = hdr, PutUint32(tmp[1:5], uint32(len(buf))), append(tmp[:], buf...)
-	var arr *ssa.Alloc
-	an.Instrs(fw, func(in ssa.Instruction) {
-		if call, ok := in.(*ssa.Call); ok {
-			if obj := an.CalleeObj(call.Common()); obj != nil && obj.Name() == "PutUint32" {
-				if sl, isSl := call.Common().Args[1].(*ssa.Slice); isSl {
-					if al, isAl := sl.X.(*ssa.Alloc); isAl {
-						if at, isArr := deref(al.Type()).Underlying().(*types.Array); isArr && at.Len() == 5 {
-							arr = al
-						}
+	frames := gwFrames(c)
+	c.Floor("buffers written through grpcWebProtocol.write", 1, len(frames))
+	fwObj := an.FuncObjOf(fw)
+	// flags[f] = the constant flag bytes of the frames function f emits, directly or by calling a framing helper
+	flags := map[string][]int64{}
+	for _, fr := range frames {
+		name := an.ShortFunc(fr.fn)
+		pos := c.At(fr.call)
+		_, isParam := fr.flag.(*ssa.Parameter)
+		_, isConst := fr.flag.(*ssa.Const)
+		c.Check(fr.flag != nil && (isParam || isConst), strings.TrimPrefix(name, "(grpcWebProtocol).")+" | byte 0 is the flag", pos, "", "the frame's first byte is not the flag argument")
+		c.Check(fr.length != nil && fr.lenEq, strings.TrimPrefix(name, "(grpcWebProtocol).")+" | bytes [1:5] are the big-endian uint32 payload length", pos, "", "the frame length is not a big-endian uint32 of len(payload) at [1:5]: it must equal the number of bytes written after the 5-byte header")
+		if an.FuncObjOf(fr.fn) == fwObj {
+			okPayload := fr.payload != nil && len(fw.Params) >= 4 && an.Resolve(fr.payload) == ssa.Value(fw.Params[3])
+			c.Check(okPayload, "framedWrite | header is followed by the payload", pos, "", "the payload does not follow the 5-byte header")
+		}
+		if k, isC := an.ConstInt(fr.flag); isC && isConst {
+			flags[name] = append(flags[name], k)
+		}
+		if p, ok := fr.flag.(*ssa.Parameter); ok {
+			// the flag is the helper's argument: read it off at the call sites
+			idx := -1
+			for i, q := range fr.fn.Params {
+				if q == p {
+					idx = i
+				}
+			}
+			obj := an.FuncObjOf(fr.fn)
+			for _, caller := range must(c.P.SourceFuncs("drpchttp")) {
+				if obj == nil || idx < 0 {
+					break
+				}
+				for _, cs := range an.CallsTo(caller, true, obj) {
+					argIdx := idx
+					if k, isC := an.ConstInt(cs.Common().Args[argIdx]); isC {
+						flags[an.ShortFunc(caller)] = append(flags[an.ShortFunc(caller)], k)
+					} else {
+						flags[an.ShortFunc(caller)] = append(flags[an.ShortFunc(caller)], -1)
 					}
 				}
 			}
 		}
-	})
-	// the array may be initialised from a composite literal copied into it
-	srcs := map[ssa.Value]bool{}
-	if arr != nil {
-		srcs[arr] = true
-		for _, r := range *arr.Referrers() {
-			if st, ok := r.(*ssa.Store); ok && st.Addr == ssa.Value(arr) {
-				if ld, isLd := st.Val.(*ssa.UnOp); isLd {
-					srcs[ld.X] = true
-				}
+	}
+	okFlags := len(flags["(*grpcWebStream).MsgSend"]) > 0 && len(flags["(*grpcWebStream).Finish"]) > 0
+	for name, ks := range flags {
+		for _, k := range ks {
+			want := int64(0)
+			if name == "(*grpcWebStream).Finish" {
+				want = 128
+			}
+			if k != want {
+				okFlags = false
 			}
 		}
 	}
-	okHdr, okLen, okApp := false, false, false
-	if arr != nil {
-		an.Instrs(fw, func(in ssa.Instruction) {
-			switch x := in.(type) {
-			case *ssa.Store:
-				if ia, ok := x.Addr.(*ssa.IndexAddr); ok && srcs[ia.X] {
-					if k, isC := an.ConstInt(ia.Index); isC && k == 0 {
-						if _, isP := x.Val.(*ssa.Parameter); isP {
-							okHdr = true
-						}
-					}
-				}
-			case *ssa.Call:
-				obj := an.CalleeObj(x.Common())
-				if obj != nil && obj.Name() == "PutUint32" && strings.Contains(obj.FullName(), "bigEndian") {
-					if sl, ok := x.Common().Args[1].(*ssa.Slice); ok && sl.X == ssa.Value(arr) {
-						lo, _ := an.ConstInt(sl.Low)
-						hi, _ := an.ConstInt(sl.High)
-						if lo == 1 && hi == 5 && lenOperand(x.Common().Args[2]) != nil {
-							okLen = true
-						}
-					}
-				}
-				if b, ok := x.Common().Value.(*ssa.Builtin); ok && b.Name() == "append" {
-					if sl, isSl := x.Common().Args[0].(*ssa.Slice); isSl && sl.X == ssa.Value(arr) && sl.Low == nil && sl.High == nil {
-						okApp = true
-					}
-				}
-			}
-		})
-	}
-	c.Check(okHdr, "framedWrite | byte 0 is the flag", c.P.Pos(fw.Pos()), "", "the frame's first byte is not the flag argument")
-	c.Check(okLen, "framedWrite | bytes [1:5] are the big-endian uint32 payload length", c.P.Pos(fw.Pos()), "", "the frame length is not a big-endian uint32 of len(payload) at [1:5]")
-	c.Check(okApp, "framedWrite | header is followed by the payload", c.P.Pos(fw.Pos()), "", "the payload does not follow the 5-byte header")
+	c.Check(okFlags, "grpc-web | message frames use flag 0, the trailer frame flag 0x80", c.P.Pos(fw.Pos()), fmt.Sprint(flags), fmt.Sprintf("frame flags by caller: %v", flags))
 	// reader
 	okR5, okU32 := false, false
 	an.Instrs(gr, func(in ssa.Instruction) {
@@ -330,17 +440,6 @@ func c14r3(c *an.Ctx) {
 		}
 	})
 	c.Check(okR5 && okU32, "grpcRead | reads a 5-byte header and takes the big-endian uint32 at [1:5]", c.P.Pos(gr.Pos()), "", "the frame reader does not mirror the writer's header layout")
-	// flags at the call sites
-	fwObj := an.FuncObjOf(fw)
-	flags := map[string]int64{}
-	for _, fn := range must(c.P.SourceFuncs("drpchttp")) {
-		for _, cs := range an.CallsTo(fn, true, fwObj) {
-			if k, isC := an.ConstInt(an.Arg(cs.Common(), 1)); isC {
-				flags[an.ShortFunc(fn)] = k
-			}
-		}
-	}
-	c.Check(flags["(*grpcWebStream).MsgSend"] == 0 && flags["(*grpcWebStream).Finish"] == 128, "grpc-web | message frames use flag 0, the trailer frame flag 0x80", c.P.Pos(fw.Pos()), fmt.Sprint(flags), fmt.Sprintf("frame flags by caller: %v", flags))
 }
 
 func c14r4(c *an.Ctx) {
@@ -425,7 +524,23 @@ func c14r4(c *an.Ctx) {
 				return
 			}
 			obj := an.CalleeObj(call.Common())
-			if obj == nil || (obj.FullName() != "(*bytes.Buffer).WriteString" && obj.FullName() != "(*bytes.Buffer).Write" && obj.FullName() != "(*bytes.Buffer).WriteByte") {
+			isSink := false
+			if obj != nil {
+				switch obj.FullName() {
+				case "(*bytes.Buffer).WriteString", "(*bytes.Buffer).Write", "(*bytes.Buffer).WriteByte",
+					"(*strings.Builder).WriteString", "(*strings.Builder).Write", "(*strings.Builder).WriteByte":
+					isSink = true
+				}
+			}
+			// the trailer block built directly in a byte slice: append(buf, text...)
+			if b, isB := call.Common().Value.(*ssa.Builtin); isB && b.Name() == "append" && len(call.Common().Args) == 2 {
+				if st, isSl := call.Type().Underlying().(*types.Slice); isSl {
+					if bt, isBasic := st.Elem().Underlying().(*types.Basic); isBasic && bt.Kind() == types.Uint8 {
+						isSink = true
+					}
+				}
+			}
+			if !isSink {
 				return
 			}
 			n++
@@ -702,6 +817,54 @@ func c14r5(c *an.Ctx) {
 		c.Check(okNil, "(*twirpStream).Finish | status 200 only when the RPC returned no error", c.At(in), "", "a failed RPC can be answered with 200 OK")
 	})
 	c.Floor("200 responses in twirp Finish", 1, n200)
+	// ... and always when it returned no error: the outcome is decided by the handler's error alone
+	{
+		learn := func(st string, cond ssa.Value, val bool) (string, bool) {
+			cnd, neg := an.StripNot(cond)
+			if x, trueNonNil, isNil := nilTestOf(cnd); isNil && an.Resolve(x) == ssa.Value(errParam) {
+				if (val != neg) != trueNonNil {
+					return addTag(st, "noerr"), true
+				}
+			}
+			return st, true
+		}
+		flow := &an.Flow{Fn: tf, Inline: an.InlineSamePackage(tf), Init: []string{""},
+			Step: func(st string, in ssa.Instruction) []string {
+				call, ok := in.(*ssa.Call)
+				if !ok {
+					return nil
+				}
+				if call.Common().IsInvoke() && call.Common().Method.Name() == "WriteHeader" {
+					if k, isC := an.ConstInt(call.Common().Args[0]); isC && k == 200 {
+						return []string{addTag(st, "w200")}
+					}
+					return []string{addTag(st, "werr")}
+				}
+				if obj := an.CalleeObj(call.Common()); obj != nil && obj.FullName() == "net/http.Error" {
+					return []string{addTag(st, "werr")}
+				}
+				return nil
+			},
+			Branch: func(st string, br *ssa.If, idx int) (string, bool) { return learn(st, br.Cond, idx == 0) },
+			OnFact: learn,
+		}
+		res := flow.Run()
+		nOK := 0
+		for _, ret := range an.Returns(tf) {
+			if !res.Reachable(ret.Block()) {
+				continue
+			}
+			for _, st := range res.Before(ret) {
+				if !hasTag(st, "noerr") {
+					continue
+				}
+				nOK++
+				c.Check(hasTag(st, "w200") && !hasTag(st, "werr"), "(*twirpStream).Finish | an RPC that returned no error is answered with 200", c.At(ret), "",
+					"an RPC whose handler returned nil can be answered with an error status (or no status): the outcome depends on something other than the handler's error, for instance on the response being empty")
+			}
+		}
+		c.Floor("error-free ways out of twirp Finish", 1, nOK)
+	}
 	// grpc-web: err != nil && status == "0" -> non-zero
 	gf := c.Fn("drpchttp", "(*grpcWebStream).Finish")
 	gerr := gf.Params[1]
